@@ -9,8 +9,8 @@
     test; merge: dimension test; rename_tensor: refuses the virtual tensor; merge: refuses joins
     that would leave a bond with fewer than two legs before it changes anything) and is tied to /repo
     by the exact correspondence run of checks/C08.py on every run. *)
-From Qib Require Import TN.TNSem TN.TNMergeValue TN.TNConsistentConv TN.TNGenBase TN.TNMergeGuard Base.Inst.
-From Run Require Import GenTN.
+From Qib Require Import TN.TNSem TN.TNMergeValue TN.TNConsistentConv TN.TNGenBase TN.TNMergeGuard TN.TNLoops Base.Inst.
+From Run Require Import GenTN GenTNLoops.
 Local Open Scope Z_scope.
 
 (** 1. the invariant implies the library's own check *)
@@ -559,3 +559,65 @@ Example C08_example_merge_value :
       zi_eqb (defining_sum n' ex_data [0; 0; 0]%nat) (0%Z, 0%Z) = false
   end.
 Proof. vm_compute. split; reflexivity. Qed.
+
+(** THE LOOPS, read off the source statement by statement (gen/tnloops.py -> Run.GenTNLoops, regenerated on every run;
+    fail-closed `ast` walk over assignments, for-loops over lists / ranges / the join list / the shared-key sets, if / raise /
+    assert / early return, in-place list updates through object references, calls of the sibling methods):
+    the five regenerated state transformers ARE the hand model, for ALL arguments (no well-formedness hypothesis).  Hence every
+    theorem of this file about TNModel.merge / rename_tensor / rename_bond (invariant, counts, values, merge = contraction) is a
+    theorem about the method bodies as they read now.  How: gen_* = TNLoops.lit_* (the text the translator produces for the
+    current source, kept as a static copy) by [reflexivity]; lit_* = model proved in TN/TNLoops.v (loop lemmas: the literal
+    `for i in range(len(l)): if l[i] == a: l[i] = c` is zreplace; dictionaries without NoDup; the join loop keeps shapes; ...).
+    A source edit that changes the generated term beyond convertibility breaks this theorem (fail closed; also for harmless
+    edits such as re-ordering two independent statements).
+    Inputs of the model, as before: the iteration orders ordT / ordB of the two Python sets `keys() & keys()`.
+    gen_merge is the WHOLE method: the validation loop (three guards per join; `self.num_open_axes`, `other.shape[...]` read
+    as the code reads them, RuntimeError / IndexError = None), then - the only part not translated - the five statements of the
+    leg-count refusal, PINNED by ast equality (gen/tn.py MERGE_LEGS_GUARD) and standing for TNModel.joins_starve, then every
+    statement from `num_open_axes_orig = self.num_open_axes` to `return self` (= gen_merge_changes). *)
+Theorem C08_source_merge_loops_are_model :
+  (forall n a c, gen_rename_tensor_priv n a c = rename_tensor_priv n a c) /\
+  (forall n a c, gen_rename_bond n a c = rename_bond n a c) /\
+  (forall n t1 t2, gen_merge_tensors n t1 t2 = merge_tensors n t1 t2) /\
+  (forall n b1 b2, gen_merge_bonds n b1 b2 = merge_bonds n b1 b2) /\
+  (forall norig n o joins ordT ordB, gen_merge_changes norig n o joins ordT ordB = merge_changes norig n o joins ordT ordB) /\
+  (forall n o joins ordT ordB, gen_merge n o joins ordT ordB = merge n o joins ordT ordB).
+Proof.
+  assert (H5 : forall norig n o joins ordT ordB, gen_merge_changes norig n o joins ordT ordB = merge_changes norig n o joins ordT ordB).
+  { intros. transitivity (lit_merge_changes norig n o joins ordT ordB); [reflexivity | apply lit_merge_changes_is_model]. }
+  refine (conj _ (conj _ (conj _ (conj _ (conj H5 _))))).
+  - intros. transitivity (lit_rename_tensor_priv n a c); [reflexivity | apply lit_rename_tensor_priv_is_model].
+  - intros. transitivity (lit_rename_bond n a c); [reflexivity | apply lit_rename_bond_is_model].
+  - intros. transitivity (lit_merge_tensors n t1 t2); [reflexivity | apply lit_merge_tensors_is_model].
+  - intros. transitivity (lit_merge_bonds n b1 b2); [reflexivity | apply lit_merge_bonds_is_model].
+  - intros. transitivity (lit_merge n o joins ordT ordB); [reflexivity | apply lit_merge_is_model].
+Qed.
+Print Assumptions C08_source_merge_loops_are_model.
+
+(** the public rename_tensor and transpose (SymbolicTensorNetwork.transpose + SymbolicTensor.transpose), statement by statement.
+    transpose: the model also answers None (IndexError) when the virtual tensor has fewer bond ids than dimensions - no object of
+    the class (SymbolicTensor.__init__ refuses it; part of `Rep` / WF) - hence the hypothesis; the default `axes=None` is pinned. *)
+Theorem C08_source_rename_transpose_loops_are_model :
+  (forall n a c, gen_rename_tensor n a c = rename_tensor n a c) /\
+  (forall n axes, (forall t, dget VT (tensors n) = Some t -> length (t_bids t) = length (t_shape t)) ->
+                  gen_transpose n axes = transpose n axes) /\
+  (forall n axes, WF n -> gen_transpose n axes = transpose n axes).
+Proof.
+  assert (H2 : forall n axes, (forall t, dget VT (tensors n) = Some t -> length (t_bids t) = length (t_shape t)) ->
+                              gen_transpose n axes = transpose n axes).
+  { intros n axes H. transitivity (lit_transpose n axes); [reflexivity | apply lit_transpose_is_model; exact H]. }
+  refine (conj _ (conj H2 _)).
+  - intros. transitivity (lit_rename_tensor n a c); [reflexivity | apply lit_rename_tensor_is_model].
+  - intros n axes [W _]. apply H2. intros t Ht. symmetry. exact (proj2 (wf_T n W VT t (dget_In _ _ _ Ht))).
+Qed.
+Print Assumptions C08_source_rename_transpose_loops_are_model.
+
+(** the surgery theorems, restated about the regenerated programs (corollaries of the bridge) *)
+Theorem C08_source_merge_keeps_invariant :
+  forall n o joins ordT ordB n', WF n -> WF o -> gen_merge n o joins ordT ordB = Some n' -> WF n' /\ is_consistent n' = true.
+Proof.
+  intros n o joins ordT ordB n' Wn Wo H.
+  rewrite (proj2 (proj2 (proj2 (proj2 (proj2 C08_source_merge_loops_are_model))))) in H.
+  pose proof (merge_WF n o joins ordT ordB n' Wn Wo H) as W. split; [exact W | apply WF_is_consistent; exact W].
+Qed.
+Print Assumptions C08_source_merge_keeps_invariant.
